@@ -198,6 +198,12 @@ theorem step_pCkOpen {L : Nat} (hL : LocalPut P offered now id s used fs (.pCkOp
     simp [next, PutPost, LocalPut, hL]
   | short k => simp [tstep, sysOf, exec] at hs
 
+theorem take_take_length {α : Type} (l : List α) (k : Nat) : l.take (l.take k).length = l.take k := by
+  rw [List.length_take]
+  rcases Nat.le_total k l.length with h | h
+  · rw [Nat.min_eq_left h]
+  · rw [Nat.min_eq_right h, List.take_of_length_le h, List.take_of_length_le (Nat.le_refl _)]
+
 theorem chunk_pos (n : Nat) : 0 < chunk n := by unfold chunk; split <;> omega
 
 theorem step_pCkRead {fd L : Nat} {acc : Bytes} (hL : LocalPut P offered now id s used fs (.pCkRead fd acc L))
@@ -242,18 +248,610 @@ theorem step_pCkRead {fd L : Nat} {acc : Bytes} (hL : LocalPut P offered now id 
           obtain ⟨o', nd', h1, h2, h3, h4⟩ := hloc hu
           rw [hfd] at h1; cases h1
           rw [hino] at h3; cases h3
-          refine ⟨_, nd, by simp [FS.setFd], h2, hino, ?_⟩
+          refine ⟨{ o with off := o.off + ((nd.data.drop o.off).take (chunk n)).length }, nd,
+            by simp [FS.setFd], h2, hino, ?_⟩
           simp only
           rw [h4, List.take_add]
           congr 1
-          rw [List.take_take]
-          congr 1
-          simp
-          omega
+          exact (take_take_length _ _).symm
   | fail =>
     simp [tstep, sysOf, exec] at hs
     obtain ⟨rfl, rfl, rfl⟩ := hs
     simp [next, PutPost, LocalPut, hinv]
   | short k => simp [tstep, sysOf, exec] at hs
+
+theorem step_pCkClose (hoff : offered s.data1) {fd L : Nat} {acc : Bytes}
+    (hL : LocalPut P offered now id s used fs (.pCkClose fd acc L))
+    (hs : tstep P now fs proc (.put id s) (.pCkClose fd acc L) fault n = some (fs', r, nx))
+    (hf : FaultStep fault used used') : PutPost P offered now id s used' fs' nx := by
+  simp only [LocalPut] at hL
+  obtain ⟨hinv, hloc⟩ := hL
+  -- whatever the close does, names and inodes stay
+  have key : ∀ (fs1 : FS Id Hsh), SameFiles fs fs1 → (used' = false → used = false) →
+      PutPost P offered now id s used' fs1 (next P fs1.content n (.put id s) (.pCkClose fd acc L) r) := by
+    intro fs1 hsame hu
+    have hinv1 : FSInv P offered fs1 := hsame.inv hinv
+    simp only [next, Gen.CachePut.reuseHit, Gen.CachePut.copyReuseRefreshes, if_true]
+    by_cases hh : putOut P s = P.H acc
+    · simp [hh, PutPost, LocalPut, hinv1]
+    · simp only [hh, decide_false, Bool.false_eq_true, if_false, PutPost, LocalPut]
+      refine ⟨hinv1, fun hu' _ i nd hi hnd => ?_⟩
+      obtain ⟨i', nd', h1, h2, h3⟩ := hloc (hu hu')
+      rw [hsame.1] at hi; rw [hsame.2.1] at hnd
+      rw [h1] at hi; cases hi
+      rw [h2] at hnd; cases hnd
+      have hok := hinv.2 _ _ _ (by simp) h1 h2
+      rcases hok s.data1 hoff rfl with hlt | heq
+      · exact hlt
+      · exact absurd (by rw [h3, heq]; rfl) hh
+  cases hf with
+  | none u =>
+    simp only [tstep, sysOf, exec, execOk] at hs
+    cases hfd : fs.fds fd with
+    | none =>
+      simp [hfd] at hs
+      obtain ⟨rfl, rfl, rfl⟩ := hs
+      exact key _ (SameFiles.refl _) (fun h => h)
+    | some o =>
+      simp [hfd] at hs
+      obtain ⟨rfl, rfl, rfl⟩ := hs
+      exact key _ ⟨rfl, rfl, rfl⟩ (fun h => h)
+  | fail =>
+    simp [tstep, sysOf, exec] at hs
+    obtain ⟨rfl, rfl, rfl⟩ := hs
+    exact key _ (SameFiles.refl _) (by simp)
+  | short k => simp [tstep, sysOf, exec] at hs
+
+/-- a step whose system call leaves names and inodes alone and whose continuation only needs the invariant. -/
+theorem post_of_sameFiles {pcs : Next Hsh} (hinv : FSInv P offered fs) (hsame : SameFiles fs fs')
+    (hpost : ∀ pc', pcs = .goto pc' → (FSInv P offered fs' → LocalPut P offered now id s used' fs' pc')) :
+    PutPost P offered now id s used' fs' pcs := by
+  cases pcs with
+  | goto pc' => exact hpost pc' rfl (hsame.inv hinv)
+  | done _ => exact hsame.inv hinv
+
+theorem exec_stat_same {p : Name Id Hsh} (hs : exec fs proc (.stat p) fault = some (fs', r)) : SameFiles fs fs' := by
+  cases fault <;> simp only [exec, execOk] at hs
+  all_goals first
+    | (simp at hs; done)
+    | (simp at hs; obtain ⟨rfl, _⟩ := hs; exact SameFiles.refl _)
+    | (split at hs
+       · simp at hs; obtain ⟨rfl, _⟩ := hs; exact SameFiles.refl _
+       · split at hs
+         · simp at hs
+         · simp at hs; obtain ⟨rfl, _⟩ := hs; exact SameFiles.refl _)
+
+theorem exec_chtimes_same {p : Name Id Hsh} (hs : exec fs proc (.chtimes p) fault = some (fs', r)) : SameFiles fs fs' := by
+  cases fault <;> simp only [exec, execOk] at hs
+  all_goals first
+    | (simp at hs; done)
+    | (simp at hs; obtain ⟨rfl, _⟩ := hs; exact SameFiles.refl _)
+    | (split at hs <;> (simp at hs; obtain ⟨rfl, _⟩ := hs; exact SameFiles.refl _))
+
+theorem exec_close_same {fd : Nat} (hs : exec fs proc (.close fd) fault = some (fs', r)) : SameFiles fs fs' := by
+  cases fault <;> simp only [exec, execOk] at hs
+  all_goals first
+    | (simp at hs; done)
+    | (simp at hs; obtain ⟨rfl, _⟩ := hs; exact SameFiles.refl _)
+    | (split at hs <;> (simp at hs; obtain ⟨rfl, _⟩ := hs; exact ⟨rfl, rfl, rfl⟩))
+
+theorem tstep_eq {op : Op Id} {pc : PC Hsh} (hs : tstep P now fs proc op pc fault n = some (fs', r, nx)) :
+    exec fs proc (sysOf P now n op pc) fault = some (fs', r) ∧ nx = next P fs'.content n op pc r := by
+  simp only [tstep] at hs
+  split at hs
+  · simp at hs
+  · next fs1 r1 he =>
+    simp at hs
+    obtain ⟨rfl, rfl, rfl⟩ := hs
+    exact ⟨he, rfl⟩
+
+theorem step_pReuseStat (hL : LocalPut P offered now id s used fs .pReuseStat)
+    (hs : tstep P now fs proc (.put id s) .pReuseStat fault n = some (fs', r, nx)) :
+    PutPost P offered now id s used' fs' nx := by
+  obtain ⟨he, rfl⟩ := tstep_eq hs
+  have hinv' : FSInv P offered fs' := (exec_stat_same he).inv hL
+  simp only [next, copyOk, Gen.CachePut.indexAfterCopy, if_true]
+  split <;> simp [PutPost, LocalPut, hinv']
+
+theorem step_pReuseChtimes (hL : LocalPut P offered now id s used fs .pReuseChtimes)
+    (hs : tstep P now fs proc (.put id s) .pReuseChtimes fault n = some (fs', r, nx)) :
+    PutPost P offered now id s used' fs' nx := by
+  obtain ⟨he, rfl⟩ := tstep_eq hs
+  have hinv' : FSInv P offered fs' := (exec_chtimes_same he).inv hL
+  simp [next, copyOk, Gen.CachePut.indexAfterCopy, PutPost, LocalPut, hinv']
+
+theorem step_pClose {fd : Nat} (hL : LocalPut P offered now id s used fs (.pClose fd))
+    (hs : tstep P now fs proc (.put id s) (.pClose fd) fault n = some (fs', r, nx)) :
+    PutPost P offered now id s used' fs' nx := by
+  obtain ⟨he, rfl⟩ := tstep_eq hs
+  have hinv' : FSInv P offered fs' := (exec_close_same he).inv hL
+  simp only [next, Gen.CachePut.removeOnCloseErr, if_true]
+  split <;> simp [PutPost, LocalPut, hinv']
+
+theorem step_pChtimes {fd : Nat} (hL : LocalPut P offered now id s used fs (.pChtimes fd))
+    (hs : tstep P now fs proc (.put id s) (.pChtimes fd) fault n = some (fs', r, nx)) :
+    PutPost P offered now id s used' fs' nx := by
+  obtain ⟨he, rfl⟩ := tstep_eq hs
+  have hinv' : FSInv P offered fs' := (exec_chtimes_same he).inv hL
+  simp [next, PutPost, LocalPut, hinv']
+
+theorem step_pDeferClose {fd : Nat} {ok : Bool} (hL : LocalPut P offered now id s used fs (.pDeferClose fd ok))
+    (hs : tstep P now fs proc (.put id s) (.pDeferClose fd ok) fault n = some (fs', r, nx)) :
+    PutPost P offered now id s used' fs' nx := by
+  obtain ⟨he, rfl⟩ := tstep_eq hs
+  have hinv' : FSInv P offered fs' := (exec_close_same he).inv hL
+  simp only [next, copyOk, copyErr, Gen.CachePut.indexAfterCopy, Gen.CachePut.copyErrSkipsIndex, if_true]
+  cases ok <;> simp [PutPost, LocalPut, hinv']
+
+theorem step_iChtimes (hL : LocalPut P offered now id s used fs .iChtimes)
+    (hs : tstep P now fs proc (.put id s) .iChtimes fault n = some (fs', r, nx)) :
+    PutPost P offered now id s used' fs' nx := by
+  obtain ⟨he, rfl⟩ := tstep_eq hs
+  have hinv' : FSInv P offered fs' := (exec_chtimes_same he).inv hL
+  simp [next, indexOk, Gen.CachePut.indexAfterCopy, PutPost, LocalPut, hinv']
+
+theorem exec_unlink_inv {q : Name Id Hsh} (hi : FSInvExc P offered fs (some q))
+    (hfull : fault = .fail → FSInv P offered fs)
+    (hs : exec fs proc (.unlink q) fault = some (fs', r)) (hf : fault = .none ∨ fault = .fail) : FSInv P offered fs' := by
+  rcases hf with rfl | rfl
+  · simp only [exec, execOk] at hs
+    split at hs
+    · next hn =>
+      simp at hs; obtain ⟨rfl, _⟩ := hs
+      exact hi.full (fun i nd h1 _ => by rw [hn] at h1; cases h1)
+    · simp at hs; obtain ⟨rfl, _⟩ := hs
+      exact inv_unlink hi
+  · simp [exec] at hs; obtain ⟨rfl, _⟩ := hs; exact hfull rfl
+
+theorem faultStep_cases (hf : FaultStep fault used used') (q : Name Id Hsh) (hs : exec fs proc (.unlink q) fault = some (fs', r)) :
+    fault = .none ∨ fault = .fail := by
+  cases hf with
+  | none u => left; rfl
+  | fail => right; rfl
+  | short k => simp [exec] at hs
+
+theorem step_pRemoveData {fd : Nat} (hL : LocalPut P offered now id s used fs (.pRemoveData fd))
+    (hs : tstep P now fs proc (.put id s) (.pRemoveData fd) fault n = some (fs', r, nx))
+    (hf : FaultStep fault used used') : PutPost P offered now id s used' fs' nx := by
+  obtain ⟨he, rfl⟩ := tstep_eq hs
+  simp only [sysOf] at he
+  have hinv' : FSInv P offered fs' := exec_unlink_inv (hL.exc _) (fun _ => hL) he (faultStep_cases hf _ he)
+  simp [next, PutPost, LocalPut, hinv']
+
+theorem step_iRemove (hL : LocalPut P offered now id s used fs .iRemove)
+    (hs : tstep P now fs proc (.put id s) .iRemove fault n = some (fs', r, nx))
+    (hf : FaultStep fault used used') : PutPost P offered now id s used' fs' nx := by
+  obtain ⟨he, rfl⟩ := tstep_eq hs
+  simp only [sysOf, Op.id] at he
+  have hinv' : FSInv P offered fs' := by
+    refine exec_unlink_inv hL.1 (fun hfl => ?_) he (faultStep_cases hf _ he)
+    subst hfl
+    cases hf
+    exact hL.2 rfl
+  simp [next, PutPost, hinv']
+
+/-- `open(q, O_CREATE [|O_TRUNC])`: a descriptor at offset 0 on the file linked at `q`, which is empty
+(created or truncated) or the file that was there. -/
+theorem open_create_spec {q : Name Id Hsh} {m : Mode} {trunc : Bool} (hinv : FSInv P offered fs)
+    (hs : execOk fs proc (.open q m true trunc) = some (fs', r)) :
+    FSInv P offered fs' ∧ ∃ i nd', r = .okFd fs.nextFd ∧ fs'.fds fs.nextFd = some ⟨i, 0, proc⟩ ∧
+      fs'.names q = some i ∧ fs'.inodes i = some nd' ∧
+      (nd'.data = [] ∨ (trunc = false ∧ fs.names q = some i ∧ fs.inodes i = some nd')) := by
+  simp only [execOk] at hs
+  cases hnm : fs.names q with
+  | none =>
+    simp [hnm, FS.newFd] at hs
+    obtain ⟨rfl, rfl⟩ := hs
+    have h1 := inv_create q hinv hnm
+    refine ⟨SameFiles.inv ?_ h1, fs.nextIno, ⟨q, []⟩, rfl, by simp, by simp, by simp, Or.inl rfl⟩
+    exact ⟨rfl, rfl, rfl⟩
+  | some i =>
+    obtain ⟨nd, hnd, _⟩ := hinv.1.named _ _ hnm
+    cases trunc with
+    | false =>
+      simp [hnm, hnd, FS.newFd] at hs
+      obtain ⟨rfl, rfl⟩ := hs
+      refine ⟨SameFiles.inv ?_ hinv, i, nd, rfl, by simp, by simpa using hnm, by simpa using hnd, Or.inr ⟨rfl, rfl, hnd⟩⟩
+      exact ⟨rfl, rfl, rfl⟩
+    | true =>
+      simp [hnm, hnd, FS.newFd] at hs
+      obtain ⟨rfl, rfl⟩ := hs
+      have h1 := inv_setData [] (hinv.exc _) hnm hnd (fileOK_nil P offered q)
+      refine ⟨SameFiles.inv ?_ h1, i, { nd with data := [] }, rfl, by simp [FS.setInode], ?_, ?_, Or.inl rfl⟩
+      · exact ⟨rfl, rfl, rfl⟩
+      · simpa [FS.setInode] using hnm
+      · simp [FS.setInode]
+
+theorem step_pOpen (hy : Hyps P offered) (hoff : offered s.data1) {trunc : Bool}
+    (hL : LocalPut P offered now id s used fs (.pOpen trunc))
+    (hs : tstep P now fs proc (.put id s) (.pOpen trunc) fault n = some (fs', r, nx))
+    (hf : FaultStep fault used used') : PutPost P offered now id s used' fs' nx := by
+  simp only [LocalPut] at hL
+  obtain ⟨hinv, hloc⟩ := hL
+  obtain ⟨he, rfl⟩ := tstep_eq hs
+  simp only [sysOf] at he
+  cases hf with
+  | none u =>
+    simp only [exec] at he
+    obtain ⟨hinv', i, nd', rfl, hfd, hnm, hnd, hdata⟩ := open_create_spec hinv he
+    have hle : nd'.data.length ≤ s.size := fileOK_data_le hoff (hinv'.2 _ _ _ (by simp) hnm hnd)
+    simp only [next, Gen.CachePut.emptyReturn, Gen.CachePut.truncOnSeekErr, decide_eq_true_eq]
+    by_cases hsz : s.size = 0
+    · simp [hsz, PutPost, LocalPut, hinv']
+    · simp only [hsz, if_false]
+      have hshort : used = false → nd'.data.length ≤ s.first := by
+        intro hu
+        rcases hdata with h0 | ⟨rfl, h1, h2⟩
+        · simp [h0]
+        · have := hloc hu rfl i nd' h1 h2
+          simp [Src.first, Gen.CachePut.firstLen]; omega
+      have hws : WriteSt P offered s used fs' fs.nextFd s.copyBytes :=
+        ⟨⟨i, 0, proc⟩, nd', hfd, hnm, hnd, hinv'.exc _, by simp [Src.copyBytes, Gen.CachePut.copyNBeforeCheck], by simp, hle, hshort⟩
+      by_cases hsk : s.seek2 = true
+      · simp only [hsk, Bool.not_true, Bool.false_eq_true, if_false]
+        exact post_writeOrNext hy hoff hsz hws
+      · simp only [hsk, Bool.not_false, if_true]
+        exact post_errPath hsz (hws.toTrunc hy hoff hsz)
+  | fail =>
+    simp [exec] at he
+    obtain ⟨rfl, rfl⟩ := he
+    simp [next, copyErr, Gen.CachePut.copyErrSkipsIndex, PutPost, hinv]
+  | short k => simp [exec] at he
+
+theorem write_spec {fd : Nat} {bs : Bytes} (hs : execOk fs proc (.write fd bs) = some (fs', r)) :
+    ∃ o nd, fs.fds fd = some o ∧ fs.inodes o.ino = some nd ∧
+      fs' = (fs.setInode o.ino { nd with data := writeAt nd.data o.off bs }).setFd fd (some { o with off := o.off + bs.length }) ∧
+      r = .okN bs.length := by
+  simp only [execOk] at hs
+  cases hfd : fs.fds fd with
+  | none => simp [hfd] at hs
+  | some o =>
+    cases hino : fs.inodes o.ino with
+    | none => simp [hfd, hino] at hs
+    | some nd =>
+      simp [hfd, hino] at hs
+      obtain ⟨rfl, rfl⟩ := hs
+      exact ⟨o, nd, rfl, hino, rfl, rfl⟩
+
+theorem ftruncate_spec {fd k : Nat} (hs : execOk fs proc (.ftruncate fd k) = some (fs', r)) :
+    ∃ o nd, fs.fds fd = some o ∧ fs.inodes o.ino = some nd ∧
+      fs' = fs.setInode o.ino { nd with data := truncTo nd.data k } ∧ r = .ok := by
+  simp only [execOk] at hs
+  cases hfd : fs.fds fd with
+  | none => simp [hfd] at hs
+  | some o =>
+    cases hino : fs.inodes o.ino with
+    | none => simp [hfd, hino] at hs
+    | some nd =>
+      simp [hfd, hino] at hs
+      obtain ⟨rfl, rfl⟩ := hs
+      exact ⟨o, nd, rfl, hino, rfl, rfl⟩
+
+/-- after any write through `fd` the error path is in order (the data file is exempted). -/
+theorem truncSt_after_write {fd : Nat} {rest bs : Bytes} (h : WriteSt P offered s used fs fd rest)
+    (hs : execOk fs proc (.write fd bs) = some (fs', r)) : TruncSt P offered s true fs' fd := by
+  obtain ⟨o, nd, h1, h2, h3, h4, _⟩ := h
+  obtain ⟨o', nd', g1, g2, rfl, _⟩ := write_spec hs
+  rw [h1] at g1; cases g1
+  rw [h3] at g2; cases g2
+  refine ⟨{ o with off := o.off + bs.length }, { nd with data := writeAt nd.data o.off bs }, by simp [FS.setFd], ?_, ?_,
+    inv_setFd _ _ (inv_setData_exc _ h4 h2 h3), fun hu => by simp at hu⟩
+  · simpa [FS.setFd, FS.setInode] using h2
+  · simp [FS.setFd, FS.setInode]
+
+theorem step_pWrite (hy : Hyps P offered) (hoff : offered s.data1) {fd : Nat} {rest : Bytes}
+    (hL : LocalPut P offered now id s used fs (.pWrite fd rest))
+    (hs : tstep P now fs proc (.put id s) (.pWrite fd rest) fault n = some (fs', r, nx))
+    (hf : FaultStep fault used used') : PutPost P offered now id s used' fs' nx := by
+  simp only [LocalPut] at hL
+  obtain ⟨hsz, hne, hws⟩ := hL
+  obtain ⟨he, rfl⟩ := tstep_eq hs
+  simp only [sysOf] at he
+  cases hf with
+  | none u =>
+    simp only [exec] at he
+    obtain ⟨o, nd, h1, h2, h3, h4, h5, h6, h7, h8⟩ := hws
+    obtain ⟨o', nd', g1, g2, rfl, rfl⟩ := write_spec he
+    rw [h1] at g1; cases g1
+    rw [h3] at g2; cases g2
+    simp only [next]
+    apply post_writeOrNext hy hoff hsz
+    have hlen := congrArg List.length h5
+    simp at hlen
+    have htk : (rest.take (chunk n)).length ≤ rest.length := by simp; omega
+    have hmin : min o.off nd.data.length = o.off := Nat.min_eq_left h6
+    refine ⟨{ o with off := o.off + (rest.take (chunk n)).length },
+      { nd with data := writeAt nd.data o.off (rest.take (chunk n)) }, by simp [FS.setFd], ?_, ?_,
+      inv_setFd _ _ (inv_setData_exc _ h4 h2 h3), ?_, ?_, ?_, ?_⟩
+    · simpa [FS.setFd, FS.setInode] using h2
+    · simp [FS.setFd, FS.setInode]
+    · show List.take (o.off + (rest.take (chunk n)).length) (writeAt nd.data o.off (rest.take (chunk n))) ++ rest.drop (chunk n) = _
+      rw [writeAt_take _ _ _ h6, List.append_assoc, List.take_append_drop, h5]
+    · show o.off + (rest.take (chunk n)).length ≤ (writeAt nd.data o.off (rest.take (chunk n))).length
+      rw [writeAt_length _ _ _ h6]; omega
+    · show (writeAt nd.data o.off (rest.take (chunk n))).length ≤ s.size
+      rw [writeAt_length _ _ _ h6]
+      have := first_lt hsz
+      omega
+    · intro hu
+      show (writeAt nd.data o.off (rest.take (chunk n))).length ≤ s.first
+      rw [writeAt_length _ _ _ h6]
+      have := h8 hu
+      omega
+  | fail =>
+    simp [exec] at he
+    obtain ⟨rfl, rfl⟩ := he
+    simp only [next, Gen.CachePut.truncOnCopyErr]
+    exact post_errPath hsz (hws.toTrunc hy hoff hsz).mono
+  | short k =>
+    simp only [exec] at he
+    split at he
+    · simp at he
+      obtain ⟨rfl, rfl⟩ := he
+      simp only [next, Gen.CachePut.truncOnCopyErr]
+      next hw => exact post_errPath hsz (truncSt_after_write hws hw)
+    · simp at he
+
+theorem step_pCommit (hy : Hyps P offered) (hoff : offered s.data1) {fd : Nat} {checked : Bool}
+    (hL : LocalPut P offered now id s used fs (.pCommit fd checked))
+    (hs : tstep P now fs proc (.put id s) (.pCommit fd checked) fault n = some (fs', r, nx))
+    (hf : FaultStep fault used used') : PutPost P offered now id s used' fs' nx := by
+  simp only [LocalPut] at hL
+  obtain ⟨hsz, rfl, hlt, hhash, hws⟩ := hL
+  obtain ⟨he, rfl⟩ := tstep_eq hs
+  simp only [sysOf] at he
+  cases hf with
+  | none u =>
+    simp only [exec] at he
+    obtain ⟨o, nd, h1, h2, h3, h4, h5, h6, h7, h8⟩ := hws
+    obtain ⟨o', nd', g1, g2, rfl, rfl⟩ := write_spec he
+    rw [h1] at g1; cases g1
+    rw [h3] at g2; cases g2
+    simp only [next, if_true, PutPost, LocalPut]
+    refine inv_setFd _ _ (inv_setData _ h4 h2 h3 ?_)
+    -- the file now holds exactly the verified bytes
+    have hlen := congrArg List.length h5
+    simp at hlen
+    have hoffv : o.off = s.first := by
+      rw [Nat.min_eq_left h6, Nat.min_eq_left (Nat.le_of_lt hlt)] at hlen; exact hlen
+    have hsize : s.size = s.first + 1 := by simp [Src.first, Gen.CachePut.firstLen]; omega
+    have hpre : nd.data.take s.first = s.data2.take s.first := by simpa [hoffv] using h5
+    have hfull : writeAt nd.data o.off (lastByte s) = s.data2.take (s.first + 1) := by
+      rw [hoffv]; exact writeAt_commit _ _ _ hpre (hoffv ▸ h6) (hsize ▸ h7) hlt
+    rw [hfull]
+    have : s.data2.take (s.first + 1) = s.data1 := hy.noColl _ _ hoff (by simpa [putOut] using hhash)
+    rw [this]
+    exact fileOK_data_full hy hoff
+  | fail =>
+    simp [exec] at he
+    obtain ⟨rfl, rfl⟩ := he
+    simp only [next, Gen.CachePut.truncOnCommitErr]
+    exact post_errPath hsz (hws.toTrunc hy hoff hsz).mono
+  | short k =>
+    simp only [exec] at he
+    split at he
+    · simp at he
+      obtain ⟨rfl, rfl⟩ := he
+      simp only [next, Gen.CachePut.truncOnCommitErr]
+      next hw => exact post_errPath hsz (truncSt_after_write hws hw)
+    · simp at he
+
+theorem step_pTrunc0 {fd : Nat} (hL : LocalPut P offered now id s used fs (.pTrunc0 fd))
+    (hs : tstep P now fs proc (.put id s) (.pTrunc0 fd) fault n = some (fs', r, nx))
+    (hf : FaultStep fault used used') : PutPost P offered now id s used' fs' nx := by
+  simp only [LocalPut] at hL
+  obtain ⟨hsz, o, nd, h1, h2, h3, h4, h5⟩ := hL
+  obtain ⟨he, rfl⟩ := tstep_eq hs
+  simp only [sysOf] at he
+  cases hf with
+  | none u =>
+    simp only [exec] at he
+    obtain ⟨o', nd', g1, g2, rfl, rfl⟩ := ftruncate_spec he
+    rw [h1] at g1; cases g1
+    rw [h3] at g2; cases g2
+    simp only [next, PutPost, LocalPut, truncTo_zero]
+    exact inv_setData _ h4 h2 h3 (fileOK_nil _ _ _)
+  | fail =>
+    simp [exec] at he
+    obtain ⟨rfl, rfl⟩ := he
+    simp only [next, PutPost, LocalPut]
+    refine h4.full (fun i nd' hi hnd => ?_)
+    rw [h2] at hi; cases hi
+    rw [h3] at hnd; cases hnd
+    exact h5 rfl
+  | short k => simp [exec] at he
+
+theorem step_iOpen (hL : LocalPut P offered now id s used fs .iOpen)
+    (hs : tstep P now fs proc (.put id s) .iOpen fault n = some (fs', r, nx))
+    (hf : FaultStep fault used used') : PutPost P offered now id s used' fs' nx := by
+  simp only [LocalPut] at hL
+  obtain ⟨he, rfl⟩ := tstep_eq hs
+  simp only [sysOf, Op.id, Gen.CachePut.indexOpenCreate, Gen.CachePut.indexOpenTrunc] at he
+  cases hf with
+  | none u =>
+    simp only [exec] at he
+    obtain ⟨hinv', i, nd', rfl, hfd, hnm, hnd, _⟩ := open_create_spec hL he
+    simp only [next, PutPost, LocalPut]
+    exact ⟨hinv', ⟨i, 0, proc⟩, hfd, rfl, hnm⟩
+  | fail =>
+    simp [exec] at he
+    obtain ⟨rfl, rfl⟩ := he
+    simp [next, PutPost, hL]
+  | short k => simp [exec] at he
+
+theorem fileOK_entry (hoff : offered s.data1) :
+    FileOK P offered (.index id) (P.enc id (putOut P s) s.size now) :=
+  Or.inr ⟨s.data1, now, hoff, rfl⟩
+
+theorem step_iWrite (hy : Hyps P offered) (hoff : offered s.data1) {fd : Nat}
+    (hL : LocalPut P offered now id s used fs (.iWrite fd))
+    (hs : tstep P now fs proc (.put id s) (.iWrite fd) fault n = some (fs', r, nx))
+    (hf : FaultStep fault used used') : PutPost P offered now id s used' fs' nx := by
+  simp only [LocalPut] at hL
+  obtain ⟨hinv, o, h1, h2, h3⟩ := hL
+  obtain ⟨nd, h4, _⟩ := hinv.1.named _ _ h3
+  obtain ⟨he, rfl⟩ := tstep_eq hs
+  simp only [sysOf] at he
+  cases hf with
+  | none u =>
+    simp only [exec] at he
+    obtain ⟨o', nd', g1, g2, rfl, rfl⟩ := write_spec he
+    rw [h1] at g1; cases g1
+    rw [h4] at g2; cases g2
+    have hcover : writeAt nd.data o.off (P.enc id (putOut P s) s.size now) = P.enc id (putOut P s) s.size now := by
+      rw [h2]
+      apply writeAt_zero_cover
+      rcases hinv.2 _ _ _ (by simp) h3 h4 with h | ⟨c, t, _, h⟩
+      · simp [h]
+      · rw [h, hy.encLen, hy.encLen]; exact Nat.le_refl _
+    simp only [next, Gen.CachePut.indexTruncAfterWrite, if_true, PutPost, LocalPut, hcover]
+    refine ⟨inv_setFd _ _ (inv_setData _ (hinv.exc _) h3 h4 (fileOK_entry hoff)),
+      { o with off := o.off + (P.enc id (putOut P s) s.size now).length },
+      { nd with data := P.enc id (putOut P s) s.size now }, by simp [FS.setFd], ?_, ?_, rfl⟩
+    · simpa [FS.setFd, FS.setInode] using h3
+    · simp [FS.setFd, FS.setInode]
+  | fail =>
+    simp [exec] at he
+    obtain ⟨rfl, rfl⟩ := he
+    simp [next, PutPost, LocalPut, hinv.exc]
+  | short k =>
+    simp only [exec] at he
+    split at he
+    · next hw =>
+      simp at he
+      obtain ⟨rfl, rfl⟩ := he
+      obtain ⟨o', nd', g1, g2, rfl, _⟩ := write_spec hw
+      rw [h1] at g1; cases g1
+      rw [h4] at g2; cases g2
+      simp only [next, PutPost, LocalPut, if_true]
+      exact ⟨trivial, inv_setFd _ _ (inv_setData_exc _ (hinv.exc _) h3 h4)⟩
+    · simp at he
+
+theorem step_iTrunc {fd : Nat} (hL : LocalPut P offered now id s used fs (.iTrunc fd))
+    (hs : tstep P now fs proc (.put id s) (.iTrunc fd) fault n = some (fs', r, nx))
+    (hf : FaultStep fault used used') : PutPost P offered now id s used' fs' nx := by
+  simp only [LocalPut] at hL
+  obtain ⟨hinv, o, nd, h1, h2, h3, h4⟩ := hL
+  obtain ⟨he, rfl⟩ := tstep_eq hs
+  simp only [sysOf] at he
+  cases hf with
+  | none u =>
+    simp only [exec] at he
+    obtain ⟨o', nd', g1, g2, rfl, rfl⟩ := ftruncate_spec he
+    rw [h1] at g1; cases g1
+    rw [h3] at g2; cases g2
+    simp only [next, PutPost, LocalPut, Bool.false_eq_true, if_false]
+    refine inv_setData _ (hinv.exc _) h2 h3 ?_
+    rw [← h4, truncTo_self]
+    exact hinv.2 _ _ _ (by simp) h2 h3
+  | fail =>
+    simp [exec] at he
+    obtain ⟨rfl, rfl⟩ := he
+    simp [next, PutPost, LocalPut, hinv.exc]
+  | short k => simp [exec] at he
+
+theorem step_iClose {fd : Nat} {err : Bool} (hL : LocalPut P offered now id s used fs (.iClose fd err))
+    (hs : tstep P now fs proc (.put id s) (.iClose fd err) fault n = some (fs', r, nx))
+    (hf : FaultStep fault used used') : PutPost P offered now id s used' fs' nx := by
+  simp only [LocalPut] at hL
+  obtain ⟨he, rfl⟩ := tstep_eq hs
+  simp only [sysOf] at he
+  have hsame := exec_close_same he
+  simp only [next, Gen.CachePut.indexRemoveOnErr, if_true]
+  cases err with
+  | true =>
+    simp only [if_true] at hL
+    obtain ⟨hu, hexc⟩ := hL
+    subst hu
+    cases hf
+    simp only [Bool.true_or, if_true, PutPost, LocalPut]
+    exact ⟨hsame.inv hexc, fun h => by simp at h⟩
+  | false =>
+    simp only [Bool.false_eq_true, if_false] at hL
+    have hinv' : FSInv P offered fs' := hsame.inv hL
+    split
+    · simp only [PutPost, LocalPut]; exact ⟨hinv'.exc _, fun _ => hinv'⟩
+    · simp only [PutPost, LocalPut]; exact hinv'
+
+/-- **Every program step of `Put`, under every placement of a single `fail` / short-write fault,
+preserves the invariant** (one lemma per program point above). -/
+theorem put_step_preserves (hy : Hyps P offered) (hoff : offered s.data1) {pc : PC Hsh}
+    (hL : LocalPut P offered now id s used fs pc)
+    (hs : tstep P now fs proc (.put id s) pc fault n = some (fs', r, nx))
+    (hf : FaultStep fault used used') : PutPost P offered now id s used' fs' nx := by
+  cases pc with
+  | pStat => exact step_pStat hL hs hf
+  | pCkOpen L => exact step_pCkOpen hL hs hf
+  | pCkRead fd acc L => exact step_pCkRead hL hs hf
+  | pCkClose fd acc L => exact step_pCkClose hoff hL hs hf
+  | pReuseStat => exact step_pReuseStat hL hs
+  | pReuseChtimes => exact step_pReuseChtimes hL hs
+  | pOpen trunc => exact step_pOpen hy hoff hL hs hf
+  | pWrite fd rest => exact step_pWrite hy hoff hL hs hf
+  | pCommit fd checked => exact step_pCommit hy hoff hL hs hf
+  | pTrunc0 fd => exact step_pTrunc0 hL hs hf
+  | pClose fd => exact step_pClose hL hs
+  | pRemoveData fd => exact step_pRemoveData hL hs hf
+  | pChtimes fd => exact step_pChtimes hL hs
+  | pDeferClose fd ok => exact step_pDeferClose hL hs
+  | iOpen => exact step_iOpen hL hs hf
+  | iWrite fd => exact step_iWrite hy hoff hL hs hf
+  | iTrunc fd => exact step_iTrunc hL hs hf
+  | iClose fd err => exact step_iClose hL hs hf
+  | iRemove => exact step_iRemove hL hs hf
+  | iChtimes => exact step_iChtimes hL hs
+  | _ => simp [LocalPut] at hL
+
+/-- as long as no fault has been injected, the directory satisfies the full invariant at every
+program point: the process may stop there. -/
+theorem local_unused_inv (hy : Hyps P offered) (hoff : offered s.data1) {pc : PC Hsh}
+    (hL : LocalPut P offered now id s false fs pc) : FSInv P offered fs := by
+  cases pc <;> simp only [LocalPut] at hL
+  case pStat => exact hL
+  case pCkOpen => exact hL
+  case pCkRead => exact hL.1
+  case pCkClose => exact hL.1
+  case pReuseStat => exact hL
+  case pReuseChtimes => exact hL
+  case pOpen => exact hL.1
+  case pWrite fd rest =>
+    obtain ⟨hsz, _, hws⟩ := hL
+    obtain ⟨o, nd, h1, h2, h3, h4, h5⟩ := hws.toTrunc hy hoff hsz
+    refine h4.full (fun i nd' hi hnd => ?_)
+    rw [h2] at hi; cases hi
+    rw [h3] at hnd; cases hnd
+    exact h5 rfl
+  case pCommit fd checked =>
+    obtain ⟨hsz, _, _, _, hws⟩ := hL
+    obtain ⟨o, nd, h1, h2, h3, h4, h5⟩ := hws.toTrunc hy hoff hsz
+    refine h4.full (fun i nd' hi hnd => ?_)
+    rw [h2] at hi; cases hi
+    rw [h3] at hnd; cases hnd
+    exact h5 rfl
+  case pTrunc0 fd =>
+    obtain ⟨hsz, o, nd, h1, h2, h3, h4, h5⟩ := hL
+    refine h4.full (fun i nd' hi hnd => ?_)
+    rw [h2] at hi; cases hi
+    rw [h3] at hnd; cases hnd
+    exact h5 rfl
+  case pClose => exact hL
+  case pRemoveData => exact hL
+  case pChtimes => exact hL
+  case pDeferClose => exact hL
+  case iOpen => exact hL
+  case iWrite => exact hL.1
+  case iTrunc => exact hL.1
+  case iClose fd err =>
+    cases err
+    · simpa using hL
+    · simp at hL
+  case iRemove => exact hL.2 trivial
+  case iChtimes => exact hL
+
+/-- a `Put` starts in a state satisfying its local invariant. -/
+theorem put_start (hinv : FSInv P offered fs) :
+    PutPost P offered now id s false fs (startOp (Hsh := Hsh) (.put id s)) := by
+  simp only [startOp, Gen.CachePut.indexAfterCopy, if_true]
+  split <;> simp [PutPost, LocalPut, hinv]
 
 end GIV.CachePut
